@@ -4,7 +4,8 @@
    out-of-range access (the instance of the safety theorem, used as a cross-check). *)
 From Coq Require Import ZArith List Bool.
 From Centro Require Model.ReconC19.
-From Centro Require Import Base.Sx Base.ArrC19 Model.MorphC19 Model.HeapC19 Model.LapC19.
+From Centro Require Import Base.Sx Base.ArrC19 Model.MorphC19 Model.HeapC19 Model.LapC19 Model.GraphC19 Model.TraceC19.
+From Centro Require Model.FillC19.
 Import ListNotations.
 Open Scope Z_scope.
 
@@ -30,6 +31,15 @@ Definition entry_pre (x : sx) : sx :=
   (* 6: augmenting_row_reduction (n ii jj idx count y |x| |u| |v| |c|) *)
   | 6 => kernel_pre_arr (as_Z (a 1%nat)) (as_Zs (a 2%nat)) (as_Zs (a 3%nat)) (as_Zs (a 4%nat)) (as_Zs (a 5%nat))
            (as_Zs (a 6%nat)) (as_Z (a 7%nat)) (as_Z (a 8%nat)) (as_Z (a 9%nat)) (as_Z (a 10%nat))
+  (* 7: _all_connected_components (n j indexes counts |label|) *)
+  | 7 => (as_Z (a 5%nat) =? as_Z (a 1%nat)) &&
+         kernel_pre_acc (as_Z (a 1%nat)) (as_Zs (a 2%nat)) (as_Zs (a 3%nat)) (as_Zs (a 4%nat))
+  (* 8: trace_outlines (labels firsts stride_table |output_count| |new_direction_table|) *)
+  | 8 => (zlen (as_Zs (a 3%nat)) =? 8) && (as_Z (a 5%nat) =? 8) &&
+         kernel_pre_trace (as_Zs (a 1%nat)) (as_Zs (a 2%nat)) (as_Zs (a 3%nat)) (as_Z (a 4%nat))
+  (* 9: fill_labeled_holes_loop (n |to_do| j idx i_count is_not_hole adjacent_non_hole to_do[:to_do_count]) *)
+  | 9 => FillC19.kernel_pre_fill (as_Z (a 1%nat)) (as_Z (a 2%nat)) (as_Zs (a 3%nat)) (as_Zs (a 4%nat))
+           (as_Zs (a 5%nat)) (as_Zs (a 6%nat)) (as_Zs (a 7%nat)) (as_Zs (a 8%nat))
   | _ => false
   end.
 
@@ -44,5 +54,13 @@ Definition entry_run (x : sx) : sx :=
                    (as_Zs (a 5%nat)) (as_Zs (a 6%nat)) (as_Zs (a 7%nat)))
   | 3 => some_b (index_lookup (as_nat (a 1%nat)) (as_Z (a 2%nat)) (as_Z (a 3%nat)) (as_Zs (a 4%nat))
                    (as_Zs (a 5%nat)) (zip_pts (as_Zs (a 6%nat)) (as_Zs (a 7%nat))))
+  (* 7 (n j indexes counts fuel) *)
+  | 7 => some_b (all_connected_components (as_nat (a 5%nat)) (as_Z (a 1%nat)) (as_Zs (a 2%nat)) (as_Zs (a 3%nat)) (as_Zs (a 4%nat)))
+  (* 8 (labels firsts strides newdir |output| |output_count| fuel) *)
+  | 8 => some_b (trace_outlines (as_nat (a 7%nat)) (as_Zs (a 1%nat)) (as_Zs (a 2%nat)) (as_Zs (a 3%nat)) (as_Zs (a 4%nat))
+                   (repeat 0 (as_nat (a 5%nat))) (repeat 0 (as_nat (a 6%nat))))
+  (* 9 (fuel |to_do| lcount j idx i_count is_not_hole adjacent_non_hole to_do[:to_do_count]) *)
+  | 9 => some_b (FillC19.fill_labeled_holes_loop (as_nat (a 1%nat)) (as_Z (a 2%nat)) (as_Z (a 3%nat)) (as_Zs (a 4%nat))
+                   (as_Zs (a 5%nat)) (as_Zs (a 6%nat)) (as_Zs (a 7%nat)) (as_Zs (a 8%nat)) (as_Zs (a 9%nat)))
   | _ => false
   end.
